@@ -5,6 +5,7 @@
 //! Usage: `tape_strategy()` yields `Vec<u16>` tapes; `build_project(tape, &GenConfig)` is a pure
 //! function tape -> `Project` (the model the oracles consult); `render(&project)` gives the files.
 pub mod build;
+pub mod cases;
 pub mod compile;
 pub mod model;
 pub mod mutate;
